@@ -54,11 +54,10 @@ Definition state1 : fstate :=
           [Unsolved; Unsolved; Unsolved; Unsolved] [-1; -1; -1; -1] [].
 Definition opts1 (mx off : Z) (fr : bool) (em : errmode) : fopts := mkOpts 0 mx 0x1p-30%float off fr em true.
 
-(* period 0 has no room for the lag: IndexError from the Python engine (fix eb62990), FortranEngineError from the Fortran
-   engine (template codes 13 / 14 are not mapped by FortranEngine.solve_t) *)
-Lemma infeasible_period_witness :
-  snd (P_solve_t no_or prog1 desc1 (opts1 100 0 true ERaise) 0 state1) = XB (Raise IndexError) /\
-  snd (F_solve_t no_or prog1 fmod1 desc1 (opts1 100 0 true ERaise) 0 state1) = XB (Raise FortranEngineError) /\
+(* period 0 has no room for the lag: IndexError from both engines, nothing changes (since fix 1354783; before, FortranEngineError) *)
+Lemma infeasible_period_instance :
+  obs_eqb (F_solve_t no_or prog1 fmod1 desc1 (opts1 100 (-1) true ESkip) 0 state1) (state1, XB (Raise IndexError)) = true /\
+  obs_eqb (P_solve_t no_or prog1 desc1 (opts1 100 (-1) true ESkip) 0 state1) (state1, XB (Raise IndexError)) = true /\
   feasible desc1 4 0 = false.
 Proof. repeat split; vm_compute; reflexivity. Qed.
 
@@ -68,12 +67,14 @@ Lemma evaluate_infeasible_witness :
   snd (F_evaluate no_or prog1 fmod1 0 state1) = XU (Raise IndexError).
 Proof. split; vm_compute; reflexivity. Qed.
 
-(* max_iter = 0 on a feasible period: 'F' / 0 iterations / False from the Python engine, FortranEngineError from the other *)
-Lemma max_iter_zero_witness :
+(* max_iter = 0 on a feasible period: 'F' / 0 iterations / False from both engines (since fix 131915c; before, FortranEngineError) *)
+Lemma max_iter_zero_instance :
   snd (P_solve_t no_or prog1 desc1 (opts1 0 0 false ERaise) 1 state1) = XB (Ret false) /\
   nth 1 (status (fst (P_solve_t no_or prog1 desc1 (opts1 0 0 false ERaise) 1 state1))) Unsolved = Failed /\
-  snd (F_solve_t no_or prog1 fmod1 desc1 (opts1 0 0 false ERaise) 1 state1) = XB (Raise FortranEngineError) /\
-  feasible desc1 4 1 = true.
+  obs_eqb (F_solve_t no_or prog1 fmod1 desc1 (opts1 0 0 false ERaise) 1 state1)
+          (let '(s, x) := P_solve_t no_or prog1 desc1 (opts1 0 0 false ERaise) 1 state1 in (s, x)) = true /\
+  nth 1 (iters (fst (F_solve_t no_or prog1 fmod1 desc1 (opts1 0 0 false ERaise) 1 state1))) 7 = 0 /\
+  snd (F_solve_t no_or prog1 fmod1 desc1 (opts1 0 0 true ERaise) 1 state1) = XB (Raise NonConvergenceError).
 Proof. repeat split; vm_compute; reflexivity. Qed.
 
 (* solve(offset=-2, errors='skip') from period 1: both raise IndexError, but the template has gone on to period 3 (whose
@@ -137,7 +138,6 @@ Section ZInstance.
     - reflexivity.
     - discriminate.
     - cbn; lia.
-    - cbn; lia.
     - left; reflexivity.
     - reflexivity.
     - vm_compute. intuition auto.
@@ -170,7 +170,6 @@ Section ZInstance.
     - reflexivity.
     - constructor; [|constructor]. split; [cbn; lia|]. split; [cbn; tauto|].
       intros j k H. cbn in H. destruct H as [H|[H|[H|[]]]]; inversion H; subst; cbn; split; lia.
-    - cbn; lia.
     - cbn; lia.
     - reflexivity.
     - reflexivity.
@@ -273,7 +272,6 @@ Section ZSkip.
     - reflexivity.
     - discriminate.
     - cbn; lia.
-    - cbn; lia.
     - left; reflexivity.
     - intros v Hv. apply (f_pass_shape Z Z.add Z.sub Z.mul Z.quot Z.opp Z.abs Z.ltb zid zid zid Z.pow zid zid zid Z.pow 0 1). exact Hv.
     - intros i k Hi. change (Z.to_nat (max_iter zopts_skip)) with 5%nat in Hi.
@@ -303,7 +301,6 @@ Section ZSkip.
     - reflexivity.
     - reflexivity.
     - reflexivity.
-    - cbn; lia.
     - cbn; lia.
     - intros idx v Hv. apply (f_pass_shape Z Z.add Z.sub Z.mul Z.quot Z.opp Z.abs Z.ltb zid zid zid Z.pow zid zid zid Z.pow 0 1). exact Hv.
     - reflexivity.
@@ -361,7 +358,6 @@ Section ZSkip.
     - reflexivity.
     - reflexivity.
     - reflexivity.
-    - cbn; lia.
     - cbn; lia.
     - intros idx v Hv. apply (f_pass_shape Z Z.add Z.sub Z.mul Z.quot Z.opp Z.abs Z.ltb zid zid zid Z.pow zid zid zid Z.pow 0 1). exact Hv.
     - reflexivity.
